@@ -147,7 +147,7 @@ def proof_stage(prop, extra_files=()):
             raise BrokenCheck('coqchk PGV.Props.%s failed (rc=%d): %s' % (prop, rc, (out + err)[-1500:]))
         ax = []
         sect = None
-        for line in out.splitlines():
+        for line in (out + '\n' + err).splitlines():          # coqchk prints its context summary on stderr
             if line.startswith('* '):
                 sect = line
             elif sect and sect.startswith('* Axioms') and line.strip() and line.strip() != '<none>':
